@@ -202,18 +202,20 @@ async fn resolve_with_nameserver_response<'a>(
         } => {
             context.cache.insert_all(&rrs);
             if question.qtype == QueryType::Record(RecordType::A) {
-                if let Some(rr) = get_record(&rrs, &question.name, RecordType::A) {
-                    tracing::trace!("got recursive delegation - using glue A record");
-                    prioritising_merge(&mut combined_rrs, vec![rr.clone()]);
+                let glue = get_records(&rrs, &question.name, RecordType::A);
+                if !glue.is_empty() {
+                    tracing::trace!("got recursive delegation - using glue A records");
+                    prioritising_merge(&mut combined_rrs, glue);
                     return Ok(Ok(ResolvedRecord::NonAuthoritative {
                         rrs: combined_rrs,
                         soa_rr: None,
                     }));
                 }
             } else if question.qtype == QueryType::Record(RecordType::AAAA) {
-                if let Some(rr) = get_record(&rrs, &question.name, RecordType::AAAA) {
-                    tracing::trace!("got recursive delegation - using glue AAAA record");
-                    prioritising_merge(&mut combined_rrs, vec![rr.clone()]);
+                let glue = get_records(&rrs, &question.name, RecordType::AAAA);
+                if !glue.is_empty() {
+                    tracing::trace!("got recursive delegation - using glue AAAA records");
+                    prioritising_merge(&mut combined_rrs, glue);
                     return Ok(Ok(ResolvedRecord::NonAuthoritative {
                         rrs: combined_rrs,
                         soa_rr: None,
@@ -608,6 +610,21 @@ fn get_record<'a>(
 ) -> Option<&'a ResourceRecord> {
     rrs.iter()
         .find(|&rr| rr.rtype_with_data.rtype() == rtype && rr.name == *target)
+}
+
+/// Given a set of RRs and a domain we're looking for, return all the records
+/// of the given type for that domain.
+///
+/// Like `get_record` this does not follow `CNAME`s.
+fn get_records(
+    rrs: &[ResourceRecord],
+    target: &DomainName,
+    rtype: RecordType,
+) -> Vec<ResourceRecord> {
+    rrs.iter()
+        .filter(|rr| rr.rtype_with_data.rtype() == rtype && rr.name == *target)
+        .cloned()
+        .collect()
 }
 
 /// A response from a remote nameserver
